@@ -124,6 +124,7 @@ func H_C12_recovered() {
 	if err != nil {
 		return
 	}
+	vCheckLogInvariant(db2, "C12r.recovered")
 	for step := 0; step < 2; step++ {
 		k := vChoice("k", n)
 		if vChoice("del", 3) == 0 {
